@@ -235,12 +235,14 @@ def summarise(interp, b: CompB, body, env, path, node, src_cell):
 
 def _apply_invs(interp, path, t: SeqT):
     """class invariants (model validity) of the model objects that are the elements of this iteration"""
-    from .values import DtV
+    from .values import DtV, RecV
     for b in t.blocks:
         if isinstance(b, LitB):
             for it in b.items:
                 if isinstance(it, DtV):
                     interp.apply_class_invs(it, path)
+                elif isinstance(it, RecV):
+                    interp.apply_rec_invs(it, path)
         elif isinstance(b, GuardB):
             _apply_invs(interp, path, b.body)
 
